@@ -172,7 +172,9 @@ class RangeNode(OperandNode):
             context.ranges[addr].value = data = func_xltypes.Array(range_cells)
             return data
 
-        value = context.eval_cell(addr)
+        # A "$" only matters when a formula is copied; it is not part of the
+        # address of the cell.
+        value = context.eval_cell(addr.replace('$', ''))
         context.set_sheet()
         return value
 
